@@ -21,6 +21,16 @@ def specFirst (w : Nat) (V : List Nat) (v : Nat) : Nat := (V.filter fun x => rev
 
 def rOptPairNat : Option (Nat × Nat) → String | some (a, b) => s!"some {a} {b}" | none => "none"
 
+/-- run a model iterator on the state-changing calls only and answer `*` at the positions of the observation calls
+(`c` count, `L` last, `h` size_hint — evaluated on a clone, so they do not change the state) -/
+def withObs (calls : List String) (run : List String → List String) : String :=
+  let isObs := fun (c : String) => c == "c" || c == "L" || c == "h"
+  let outs := run (calls.filter (fun c => !isObs c))
+  let (res, _) := calls.foldl (fun (acc : List String × List String) c =>
+      if isObs c then (acc.1 ++ ["*"], acc.2)
+      else match acc.2 with | o :: rest => (acc.1 ++ [o], rest) | [] => (acc.1 ++ ["?"], [])) ([], outs)
+  " ".intercalate res
+
 def evalWm (st : DState) (name : String) (t : List String) (impl : String) : Eval :=
   let m := st.mode
   let _ := impl
@@ -124,7 +134,7 @@ def evalWm (st : DState) (name : String) (t : List String) (impl : String) : Eva
            let toCall := fun (c : String) => match c.front with
              | 'n' => ICall.next | 'N' => ICall.nth (num (c.drop 1).toString) | _ => ICall.len
            let showO := fun (o : IOut Nat) => match o with | .item a => s!"s{a}" | .none => "-" | .len n => s!"l{n}"
-           res (" ".intercalate ((cursorRun get ⟨0, w.len⟩ (calls.map toCall)).map showO))
+           res (withObs calls fun cs => (cursorRun get ⟨0, w.len⟩ (cs.map toCall)).map showO)
              (some (dequeRun (fun x => s!"s{x}") V calls)) "wm.it.into"
          | ["items"] =>
            let get := fun i => match w.get m i with | .ok x => x | .fault _ => 0
@@ -132,7 +142,7 @@ def evalWm (st : DState) (name : String) (t : List String) (impl : String) : Eva
              | 'n' => ICall.next | 'b' => ICall.nextBack | 'N' => ICall.nth (num (c.drop 1).toString)
              | 'B' => ICall.nthBack (num (c.drop 1).toString) | _ => ICall.len
            let showO := fun (o : IOut Nat) => match o with | .item a => s!"s{a}" | .none => "-" | .len n => s!"l{n}"
-           res (" ".intercalate ((cursorRun get ⟨0, w.len⟩ (calls.map toCall)).map showO))
+           res (withObs calls fun cs => (cursorRun get ⟨0, w.len⟩ (cs.map toCall)).map showO)
              (some (dequeRun (fun x => s!"s{x}") V calls)) "wm.it.items"
          | ["value", v] => res (valueRun (num v) (.ok 0) calls) (some (dequeRun pairStr (occPairs V (num v)) calls)) "wm.it.value"
          | ["sel", r, v] => res (valueRun (num v) (.ok (num r)) calls) (some (dequeRun pairStr ((occPairs V (num v)).drop (num r)) calls)) "wm.it.sel"
